@@ -362,6 +362,8 @@ def desugar(text, rules, counts):
             text, c = _r_mapcollect(text)
         elif r == "R-DEREFSET":
             text, c = _r_derefset(text)
+        elif r == "R-GUARD":
+            text, c = _r_guard(text)
         elif r in ("R-QCLOSURE", "R-UNDERSCORE"):
             text, c = _r_qclosure(text)
         elif r == "R-REC":
@@ -693,6 +695,24 @@ def _r_derefset(text):
             n += 1
             continue
         break
+    return text, n
+
+
+def _r_guard(text):
+    """R-GUARD: Rust's binding rule for the guard of the directory's cache lock, made visible to the verifier. A guard bound to a NAME
+    (`let g = self.cache_lock.read().await;`) lives to the end of the function: the statement is followed by
+    `proof { grant_shared_lock_held(&g); }` (rustc checks that the name exists). A guard matched against `_` is dropped at the end of that
+    statement: nothing is granted. An explicit `drop(g)` makes the unit undecided (the token could not be taken back)."""
+    m = mask(text)
+    n = 0
+    for mt in reversed(list(re.finditer(r"\blet\s+(\w+)\s*=\s*self\s*\.\s*cache_lock\s*\.\s*read\s*\(\s*\)\s*\.\s*await\s*;", m))):
+        g = mt.group(1)
+        if g == "_":
+            continue
+        if re.search(r"\bdrop\s*\(\s*%s\s*\)" % re.escape(g), m):
+            raise SpliceError("R-GUARD: the guard %s is dropped explicitly" % g)
+        text = text[:mt.end()] + " proof { grant_shared_lock_held(&%s); }" % g + text[mt.end():]
+        n += 1
     return text, n
 
 
